@@ -294,7 +294,7 @@ fn cmd_place(prop: &str) -> i32 {
     let rule = "N: real crate, worker process with ASLR off; generated (target address class incl. in-page offset, 0-3 earlier installations on the same function, dictated trampoline page in +/-128 MiB, fake displacement from the trampoline incl. +/-2^31 edge and far, API flavour, caller threads); entry and trampoline decoded by the mini-decoder, then really called; non-trivial = installed-and-called case that is page-straddling, below 128 MiB, uses the long trampoline form, has a fake displacement within 16 of +/-2^31, or is a re-fake of a function faked 1-3 times before through the same injector; distinct by (target, trampoline page, fake, flavour)";
     let mut rec = Recorder::new(prop, "n-place", rule);
     rec.assumptions.push("x86-64 Linux host; symbol interposition of mmap/munmap/mprotect/__clear_cache by the executable (calibrated at worker start)".into());
-    let n = cases(2400, 120_000);
+    let n = cases(4800, 160_000);
     run_sharded(&mut rec, 1, n, shards(), "place", Value::Null, Duration::from_secs(20), place::strategy, judge_place, |c| json!({"PlaceCase": c}));
     rec.finish(&out_path())
 }
@@ -308,7 +308,7 @@ fn cmd_probe(prop: &str) -> i32 {
     };
     let mut rec = Recorder::new(prop, engine, rule);
     rec.assumptions.push("x86-64 SysV ABI; assembly probes in vnative/src/probes.rs".into());
-    let n = cases(4000, 400_000);
+    let n = cases(8000, 400_000);
     run_sharded(&mut rec, if prop == "C10" { 10 } else { 13 }, n, shards(), "probe", Value::Null, Duration::from_secs(20), move || probe_case::strategy(modes.clone()), probe_case::judge, |c| json!({"ProbeCase": c}));
     if prop == "C13" {
         let l = rec.classes.get("fake/long-trampoline").copied().unwrap_or(0);
@@ -353,7 +353,7 @@ fn cmd_times(prop: &str) -> i32 {
 fn cmd_panic(prop: &str) -> i32 {
     let mut rec = Recorder::new(prop, "n-panics", "N: generated scripted test bodies (0..7 Install{target, times: N | plain} / Call steps over 3 targets) with exactly one panic source placed at a generated position 0..=len (every position reachable; shrunk towards 0), source in {user panic!, fake rejecting its arguments, over-called fake, refused install: signature mismatch / null pointer / boolean on non-bool / unchecked-checked mix / async output mismatch, allocation failure (every mmap fails), mprotect failure}, optionally caught inside the scope so that exit-time verification fires afterwards; 1..5 consecutive lifetimes per case and many per process, then a fresh thread creates an injector, installs, calls, drops under a deadline; oracle (script model): panics raised == panics predicted (one per source, plus one exit verification iff an unsatisfied expectation is pending and the scope is not unwinding), no abort, all functions byte-identical after the unwind, refused target unwritten at the moment of the panic, follow-up injector works; non-trivial = panic while >= 1 fake is installed; distinct by (source, position, caught, pending satisfied/unsatisfied)");
     rec.assumptions.push("faults injected during *restoration* and panics inside extern \"C\"/\"system\" fakes (abort by language rule) are excluded by construction".into());
-    let n = cases(2400, 120_000);
+    let n = cases(6000, 160_000);
     run_sharded(&mut rec, 5, n, shards(), "panic", Value::Null, Duration::from_secs(120), panics::strategy, panics::judge, |c| json!({"PanicCase": c}));
     rec.finish(&out_path())
 }
@@ -368,7 +368,7 @@ fn cmd_threads(prop: &str) -> i32 {
 
 fn cmd_async(prop: &str) -> i32 {
     let mut rec = Recorder::new(prop, "n-async", "N: family of 11 async functions (free and method; by-value and by-reference parameters; outputs (), u32 x3 incl. a method, u64, bool, String x2, Vec<u8>, (u64, String), a 264-byte struct returned through memory; every original bumps a counter and awaits a yield-once future) driven by a hand-written single-poll executor; generated histories of Fake(i, v) / Await(i, arg, executor thread 0..3) / re-Fake / EndLifetime, then every function awaited once more; oracle (model): while faked the first poll is Ready with the latest fake's value, the value expression is evaluated exactly once per await, the original body does not run; unfaked functions (incl. same-output-type siblings) yield their original value in two polls; after the lifetime all are original; non-trivial = history with an await of a same-output-type sibling of a faked function, a re-fake, the large by-memory output, or >= 2 lifetimes; distinct by history");
-    let n = cases(2400, 120_000);
+    let n = cases(6000, 160_000);
     run_sharded(&mut rec, 14, n, shards(), "async", Value::Null, Duration::from_secs(60), asyncs::strategy, asyncs::judge, |c| json!({"AsyncCase": c}));
     rec.finish(&out_path())
 }
@@ -402,11 +402,11 @@ fn cmd_hist(prop: &str) -> i32 {
     let optv = serde_json::to_value(&opts).unwrap();
     match prop {
         "C03" => {
-            let n = cases(480, 16_000);
+            let n = cases(800, 16_000);
             run_sharded(&mut rec, 3, n, shards(), "hist", optv, Duration::from_secs(120), || hist::strategy(2, 4, true), hist_judge::judge_c03, |c| json!({"HistCase": c, "opts": "C03"}));
         }
         "C12" => {
-            let n = cases(640, 12_000);
+            let n = cases(1200, 12_000);
             let thorough = vcommon::tier() == vcommon::Tier::Thorough;
             run_sharded(&mut rec, 12, n, shards(), "hist", optv, Duration::from_secs(600), move || {
                 use proptest::prelude::*;
@@ -417,11 +417,11 @@ fn cmd_hist(prop: &str) -> i32 {
             }, hist_judge::judge_c12, |c| json!({"HistCase": c, "opts": "C12"}));
         }
         "C17" => {
-            let n = cases(1600, 80_000);
+            let n = cases(3200, 80_000);
             run_sharded(&mut rec, 17, n, shards(), "hist", optv, Duration::from_secs(60), || hist::strategy(2, 6, true), hist_judge::judge_c17, |c| json!({"HistCase": c, "opts": "C17"}));
         }
         _ => {
-            let n = cases(2400, 120_000);
+            let n = cases(4000, 120_000);
             run_sharded(&mut rec, 2, n, shards(), "hist", optv, Duration::from_secs(60), || hist::strategy_rw(4, 8, false, true), hist_judge::judge_c02, |c| json!({"HistCase": c, "opts": "C02"}));
         }
     }
